@@ -29,6 +29,13 @@ VALUES = (0.0, 1.5, -2.25, 1e6, -1e-6, 123456.789012, 0.0000005)
 # '%.4g' instead of '%.4f' is invisible on the other eleven)
 DTS = (0.0001, 0.005, 0.01, 0.02, 0.5, 0.9999, 1.0, 1.2345, 1.5, 2.0, 12.25, 100.0)
 LABELS = ('m1', 'my label', 'a, b #1')
+# "labels with spaces", in general form: every label over the two-letter alphabet {letter, blank} up to a
+# length bound that contains at least one letter - blanks leading, trailing, single and in runs.  These are
+# separate (cheap) pool cases on a small menu of records and time steps, because the position of the
+# blanks in the label is independent of the numbers stored below it.
+LABEL_ALPHABET = ('a', ' ')
+LABEL_RECORDS = ((0.0,), (1.5, -2.25, 123456.789012))
+LABEL_DTS = (0.01, 1.5)
 MS = (1.0, 2.5, -1)
 SAVERS = ('save_signal:Signal', 'save_signal:AccSignal', 'save_values_and_dt')
 
@@ -84,18 +91,32 @@ def build(tier, seed):
     for w in words(range(len(VALUES)), 1, L):
         for dt in DTS:
             cases.append({'w': [VALUES[i] for i in w], 'dt': dt})
+    LL = 5 if tier == 'quick' else 6
+    n_lab = 0
+    for lw in words(range(len(LABEL_ALPHABET)), 1, LL):
+        lab = ''.join(LABEL_ALPHABET[i] for i in lw)
+        if not lab.strip():
+            continue        # a label without any letter is not examined (see assumptions)
+        n_lab += 1
+        cases.append({'kind': 'label', 'label': lab})
     return {
         'cases': cases,
-        'rule': 'all value words of length 1..%d over the 7-value alphabet x %d time steps (one pool case per '
-                '(word, dt)); inside each case: 3 labels x 3 savers (save_signal from a Signal, save_signal from an '
+        'rule': 'value cases: all value words of length 1..%d over the 7-value alphabet x %d time steps (one pool case '
+                'per (word, dt)); inside each case: 3 labels x 3 savers (save_signal from a Signal, save_signal from an '
                 'AccSignal, save_values_and_dt) = 9 real files, each read back through 15 loader calls '
                 '(load_values_and_dt; load_signal astype signal / acc_sig / default; load_sig m default,1.0,2.5,-1; '
                 'load_asig default and load_label in {F,T} x m in {1.0,2.5,-1}); non-trivial = word not identically '
-                'zero' % (L, len(DTS)),
+                'zero.  label cases: all %d labels of length 1..%d over {letter, blank} with at least one letter '
+                '(blanks leading, trailing, single, in runs; one pool case per label), each on %d records x %d time '
+                'steps x the 3 savers x the same 15 loader calls; non-trivial = label contains a blank'
+                % (L, len(DTS), n_lab, LL, len(LABEL_RECORDS), len(LABEL_DTS)),
         'bounds': {'values': VALUES, 'max_len': L, 'dt': DTS, 'labels': LABELS, 'm': MS, 'savers': SAVERS,
+                   'label_alphabet': LABEL_ALPHABET, 'label_max_len': LL, 'label_records': LABEL_RECORDS,
+                   'label_dt': LABEL_DTS,
                    'loaders': ['load_values_and_dt', 'load_signal(astype=signal)', 'load_signal(astype=acc_sig)',
                                'load_signal()', 'load_sig', 'load_asig']},
         'required_classes': ['dt>=1', 'dt<1', 'one-sample', 'multi-sample', 'label-plain', 'label-space',
+                             'label-leading-space', 'label-trailing-space', 'label-space-run',
                              'label-comma-hash', 'm-default', 'm-scaled', 'm-negative', 'value-exact',
                              'value-rounded', 'value-negative', 'value-large', 'value-below-precision',
                              'returned-Signal', 'returned-AccSignal', 'label-requested', 'label-not-requested',
@@ -103,6 +124,8 @@ def build(tier, seed):
         'assumptions': ['values outside the 7-value alphabet, records longer than the bound, dt and labels outside '
                         'the menus are not examined',
                         'labels are single-line strings (the format stores the label on one line)',
+                        'labels consisting of blanks only (no letter) and the empty label are not examined; white '
+                        'space other than the blank (tabs, line breaks) is not examined',
                         'load_signal() with its default astype ("sig") is read as a request for a Signal',
                         'load_values_and_dt must return a one-dimensional array of npts values (a 0-d array has no '
                         'number of points)',
@@ -178,105 +201,141 @@ def _check_dt(r, sub, got, dt):
     return True
 
 
-def run_case(case):
-    r = Res()
-    w = [float(v) for v in case['w']]
-    dt = float(case['dt'])
+def _label_classes(r, label):
+    if label == 'm1':
+        r.cls('label-plain')
+    if ',' in label or '#' in label:
+        r.cls('label-comma-hash')
+    if ' ' in label:
+        r.cls('label-space')
+    if label.startswith(' '):
+        r.cls('label-leading-space')
+    if label.endswith(' '):
+        r.cls('label-trailing-space')
+    if '  ' in label:
+        r.cls('label-space-run')
+
+
+def _round_trip(r, ffp, loaders, w, dt, label, saver):
+    """One real file: written with `saver`, read back through every loader call, removed."""
+    classes = {'Signal': eqsig.Signal, 'AccSignal': eqsig.AccSignal}
     n = len(w)
-    if any(w):
-        r.nontrivial += 1
+    r.cls({'save_signal:Signal': 'saver-Signal', 'save_signal:AccSignal': 'saver-AccSignal'}.get(
+        saver, 'saver-values'))
+    fsub = {'w': w, 'dt': dt, 'label': label, 'saver': saver}
+    r.states += 1
+    try:
+        ok, _ = r.call('save', fsub, _save, saver, ffp, w, dt, label)
+        if not ok:
+            return
+        if not os.path.isfile(ffp):
+            r.fail('save', fsub, 'saver returned without writing the file')
+            return
+        for name, extra, fn, want_cls, m, want_label in loaders:
+            sub = dict(fsub, loader=name)
+            sub.update(extra)
+            r.states += 1
+            r.transitions += 1
+            if extra.get('m', 1.0) is None or name in ('load_values_and_dt', 'load_signal'):
+                r.cls('m-default')
+            elif m < 0:
+                r.cls('m-negative')
+            elif m != 1.0:
+                r.cls('m-scaled')
+            ok, out = r.call('load', sub, fn, ffp)
+            if not ok:
+                continue
+            if want_cls is None:
+                try:
+                    vals, dt2 = out
+                except Exception:
+                    r.fail('load', sub, 'result is not a (values, dt) pair', observed=out)
+                    continue
+                try:
+                    shp = tuple(np.shape(vals))
+                except Exception:
+                    shp = None
+                r.expect('npts', sub, shp == (n,), 'values have shape %s, expected (%d,): number of points '
+                         'not preserved' % (shp, n), observed=vals, expected=w)
+                _check_dt(r, sub, dt2, dt)
+                _check_values(r, sub, vals, w, 1.0)
+                continue
+            r.expect('type', sub, type(out) is classes[want_cls],
+                     'returned %s, requested %s' % (type(out).__name__, want_cls),
+                     observed=type(out).__name__, expected=want_cls)
+            if isinstance(out, eqsig.Signal):
+                r.cls('returned-' + type(out).__name__)
+            else:
+                continue   # nothing else can be observed on a non-signal
+            try:
+                got_n = [int(out.npts), len(out.values)]
+            except Exception as e:
+                got_n = repr(e)
+            r.expect('npts', sub, got_n == [n, n], 'npts / len(values) = %s, expected %d' % (got_n, n),
+                     observed=got_n, expected=[n, n])
+            try:
+                dt2 = out.dt
+            except Exception as e:
+                dt2 = repr(e)
+            _check_dt(r, sub, dt2, dt)
+            try:
+                vals = out.values
+            except Exception as e:
+                vals = repr(e)
+            _check_values(r, sub, vals, w, m)
+            if want_label:
+                r.cls('label-requested')
+                try:
+                    lab = out.label
+                except Exception as e:
+                    lab = repr(e)
+                r.expect('label', sub, isinstance(lab, str) and lab == label,
+                         'label %r differs from the saved %r' % (lab, label), observed=lab, expected=label)
+            else:
+                r.cls('label-not-requested')
+    finally:
+        try:
+            os.remove(ffp)
+        except OSError:
+            pass
+
+
+def _value_classes(r, w, dt):
     r.cls('dt>=1' if dt >= 1 else 'dt<1')
-    r.cls('one-sample' if n == 1 else 'multi-sample')
+    r.cls('one-sample' if len(w) == 1 else 'multi-sample')
     if any(v < 0 for v in w):
         r.cls('value-negative')
     if any(abs(v) >= 1e5 for v in w):
         r.cls('value-large')
     if any(0 < abs(v) < 1e-6 for v in w):
         r.cls('value-below-precision')
+
+
+def run_case(case):
+    r = Res()
     ffp = os.path.join(_scratch(), 'c.txt')
     loaders = _loaders()
-    classes = {'Signal': eqsig.Signal, 'AccSignal': eqsig.AccSignal}
+    if case.get('kind') == 'label':
+        label = str(case['label'])
+        if ' ' in label:
+            r.nontrivial += 1
+        for rec in LABEL_RECORDS:
+            w = [float(v) for v in rec]
+            for dt in LABEL_DTS:
+                _value_classes(r, w, dt)
+                _label_classes(r, label)
+                for saver in SAVERS:
+                    _round_trip(r, ffp, loaders, w, float(dt), label, saver)
+        return r
+    w = [float(v) for v in case['w']]
+    dt = float(case['dt'])
+    if any(w):
+        r.nontrivial += 1
+    _value_classes(r, w, dt)
     for label in LABELS:
-        r.cls('label-plain' if label == 'm1' else 'label-space' if label == 'my label' else 'label-comma-hash')
+        _label_classes(r, label)
         for saver in SAVERS:
-            r.cls({'save_signal:Signal': 'saver-Signal', 'save_signal:AccSignal': 'saver-AccSignal'}.get(
-                saver, 'saver-values'))
-            fsub = {'w': w, 'dt': dt, 'label': label, 'saver': saver}
-            r.states += 1
-            try:
-                ok, _ = r.call('save', fsub, _save, saver, ffp, w, dt, label)
-                if not ok:
-                    continue
-                if not os.path.isfile(ffp):
-                    r.fail('save', fsub, 'saver returned without writing the file')
-                    continue
-                for name, extra, fn, want_cls, m, want_label in loaders:
-                    sub = dict(fsub, loader=name)
-                    sub.update(extra)
-                    r.states += 1
-                    r.transitions += 1
-                    if extra.get('m', 1.0) is None or name in ('load_values_and_dt', 'load_signal'):
-                        r.cls('m-default')
-                    elif m < 0:
-                        r.cls('m-negative')
-                    elif m != 1.0:
-                        r.cls('m-scaled')
-                    ok, out = r.call('load', sub, fn, ffp)
-                    if not ok:
-                        continue
-                    if want_cls is None:
-                        try:
-                            vals, dt2 = out
-                        except Exception:
-                            r.fail('load', sub, 'result is not a (values, dt) pair', observed=out)
-                            continue
-                        try:
-                            shp = tuple(np.shape(vals))
-                        except Exception:
-                            shp = None
-                        r.expect('npts', sub, shp == (n,), 'values have shape %s, expected (%d,): number of points '
-                                 'not preserved' % (shp, n), observed=vals, expected=w)
-                        _check_dt(r, sub, dt2, dt)
-                        _check_values(r, sub, vals, w, 1.0)
-                        continue
-                    r.expect('type', sub, type(out) is classes[want_cls],
-                             'returned %s, requested %s' % (type(out).__name__, want_cls),
-                             observed=type(out).__name__, expected=want_cls)
-                    if isinstance(out, eqsig.Signal):
-                        r.cls('returned-' + type(out).__name__)
-                    else:
-                        continue   # nothing else can be observed on a non-signal
-                    try:
-                        got_n = [int(out.npts), len(out.values)]
-                    except Exception as e:
-                        got_n = repr(e)
-                    r.expect('npts', sub, got_n == [n, n], 'npts / len(values) = %s, expected %d' % (got_n, n),
-                             observed=got_n, expected=[n, n])
-                    try:
-                        dt2 = out.dt
-                    except Exception as e:
-                        dt2 = repr(e)
-                    _check_dt(r, sub, dt2, dt)
-                    try:
-                        vals = out.values
-                    except Exception as e:
-                        vals = repr(e)
-                    _check_values(r, sub, vals, w, m)
-                    if want_label:
-                        r.cls('label-requested')
-                        try:
-                            lab = out.label
-                        except Exception as e:
-                            lab = repr(e)
-                        r.expect('label', sub, isinstance(lab, str) and lab == label,
-                                 'label %r differs from the saved %r' % (lab, label), observed=lab, expected=label)
-                    else:
-                        r.cls('label-not-requested')
-            finally:
-                try:
-                    os.remove(ffp)
-                except OSError:
-                    pass
+            _round_trip(r, ffp, loaders, w, dt, label, saver)
     return r
 
 
